@@ -576,4 +576,35 @@ example : lexFrom toyCharSpec 3 ['-', '-', 'x', '\n'] = [⟨.lineComment, ['-', 
   simp [lexFrom_cons, lexOne, lexFrom, utf8Len]
   decide
 
+theorem C17_text_mode_free_of_wb_example :
+    TextModeFree (α := Rat) ⟨toyCharSpec, ⟨0⟩, fun _ => none, fun _ _ => .ok, fun c => [c], 0⟩ []
+      [.start .step, .timer ⟨⟨none, none⟩, ⟨0, 0⟩⟩, .stop .step] {} := by
+  simp only [TextModeFree]
+  refine ⟨fun h => (by cases h.1), fun h => ?_, fun h => (by cases h.1), trivial⟩
+  obtain ⟨_, buf, hb⟩ := h
+  simp [processEvent, A_modify] at hb
+
+/-! non-vacuity for the recipe-level theorems: an environment without the MODES extension whose
+    character table satisfies `CrlfSpec` and `UwsNL`; the excluded situation exists (a component event
+    meeting an open text buffer) and an ordinary one is not excluded -/
+def C17_toyEnv : Env := ⟨toyCharSpec, ⟨0⟩, fun _ => none, fun _ _ => .ok, fun c => [c], 0⟩
+example : C17_toyEnv.ext.has Gen.EXT_MODES = false := by decide
+example : CrlfSpec C17_toyEnv.cs := ⟨by decide, by decide, by decide, by decide⟩
+example : UwsNL C17_toyEnv.cs := ⟨by decide, by decide⟩
+example : TextModeSliceAt (α := Rat) (.timer ⟨⟨none, none⟩, ⟨0, 0⟩⟩) { block := some (.text []) } :=
+  ⟨rfl, [], rfl⟩
+example : ¬ TextModeSliceAt (α := Rat) (.timer ⟨⟨none, none⟩, ⟨0, 0⟩⟩) { block := some (.step []) } := by
+  rintro ⟨_, buf, h⟩; cases h
+example : TextModeFree (α := Rat) C17_toyEnv [] [.start .step, .timer ⟨⟨none, none⟩, ⟨0, 0⟩⟩, .stop .step] {} :=
+  C17_text_mode_free_of_wb_example
+/-- `ColSim` / `ResSim` are inhabited by runs that differ: the event lists `[Warning d']`, `[Warning d]`
+    with different label positions -/
+example : ResSim (α := Rat) C17_toyEnv.cs.uws
+    (parseEvents C17_toyEnv [] [.warning ⟨.warning, .parse, "k", [⟨1, 2⟩]⟩])
+    (parseEvents C17_toyEnv ['x'] [.warning ⟨.warning, .parse, "k", [⟨5, 9⟩]⟩]) :=
+  C17_analysis_respects_evsim C17_toyEnv [] ['x'] _ _
+    (.cons (EvSim.mk_warning ⟨rfl, rfl, rfl, rfl⟩) .nil) (by
+      simp only [TextModeFree]
+      exact ⟨fun h => (by cases h.1), trivial⟩)
+
 end Cook
